@@ -815,9 +815,19 @@ Definition spec_step (code : list N) (s : pstate) : presult :=
 Definition dMask : Z := 21267647932558653966460912964485513215.   (* 2^124 - 1 *)
 (* small multipliers written on the left: Pos.mul recurses on its first argument *)
 Definition dmix (acc v : Z) : Z :=
-  Z.land (33 * acc + Z.land v dMask + 7 * Z.land (Z.shiftr v 124) dMask + 1) dMask.
+  (if (0 <=? v) && (v <=? dMask)
+   then Z.land (33 * acc + v + 1) dMask
+   else Z.land (33 * acc + Z.land v dMask + 7 * Z.land (Z.shiftr v 124) dMask + 1) dMask)%Z.
 Definition dlist (acc : Z) (l : list Z) : Z :=
   fold_left dmix l (dmix acc (Z.of_nat (length l))).
+(* bytes are digested 15 at a time (big-endian limbs of 120 bits) *)
+Fixpoint dbytes_go (fuel : nat) (acc : Z) (l : list N) : Z :=
+  match fuel, l with
+  | O, _ | _, [] => acc
+  | S k, _ => dbytes_go k (dmix acc (be_to_Z (firstn 15 l))) (skipn 15 l)
+  end.
+Definition dbytes (acc : Z) (l : list N) : Z :=
+  dbytes_go (length l) (dmix acc (Z.of_nat (length l))) l.
 
 Record case := mkCase {
   c_code : list N;          (* bytecode *)
@@ -876,7 +886,7 @@ Definition alias_ids (l : list loc) : list N := map (fun x => index_of l x 0) l.
 
 Definition run_digest (ok : bool) (tops stack : list Z) (m : list N) : Z :=
   let d := dlist 7 tops in
-  if ok then dlist (dlist d stack) (map Z.of_N m) else d.
+  if ok then dbytes (dlist d stack) m else d.
 
 (* the heap model (regenerated bodies + regenerated table) against the observation *)
 Definition heap_ok (tbl : list opinfo) (bodies : list (string * stmt)) (globals : list Z) (c : case) : bool :=
